@@ -1,6 +1,6 @@
 import Lemmas.Parse
 import Lemmas.Demo
-import Lemmas.Abbrev
+import Lemmas.OptStart
 /-!
 # C05 — abbreviations: unique prefix = full name, exact name wins, ambiguity errors
 -/
@@ -90,19 +90,20 @@ theorem error_absorbing (mode : Mode) (s : PState) (ts : List Str) (h : s.err.is
   rw [foldl_err ext mode s ts h, finish_err ext s h]
 
 /-- **Whole command line**: replacing the long token `--k[=v]`, where `k` is an abbreviation that
-resolves to the declared name `k'`, by `--k'[=v]` — anywhere an option may start, with any tokens
+resolves to the declared name `k'`, by `--k'[=v]` — anywhere an option may start (head position or right
+behind an option that can still take values), with any tokens
 before and after — changes nothing observable in the result of the parse: same option values and
 `CalledAs`, same selected command, same remaining arguments, same unknown-option log, same error. -/
 theorem abbrev_parse (mode : Mode) (P : Prog) (pre post : List Str) (k k' g3 : Str)
     (hk : k ≠ []) (hkq : ∀ c ∈ k, c ≠ chEq) (hk' : k' ≠ []) (hkq' : ∀ c ∈ k', c ≠ chEq) (hg : G3 g3)
-    (he : (run ext mode P pre).err = none) (hc : (run ext mode P pre).ctx = .idle)
+    (hs : OptStart (run ext mode P pre))
     (h : resolve ((run ext mode P pre).P.node (run ext mode P pre).cur) k = [k'])
     (h' : resolve ((run ext mode P pre).P.node (run ext mode P pre).cur) k' = [k']) :
     ObsEq (parseArgs ext mode P (pre ++ [chDash :: chDash :: (k ++ g3)] ++ post))
           (parseArgs ext mode P (pre ++ [chDash :: chDash :: (k' ++ g3)] ++ post)) := by
   apply parse_of_sim
   simp only [List.foldl_cons, List.foldl_nil]
-  exact abbrev_sim ext mode _ _ _ k k' (attached g3) he hc
+  exact abbrev_sim' ext mode _ _ _ k k' (attached g3) hs
     (isOption_long k g3 mode hk hkq hg) (isOption_long k' g3 mode hk' hkq' hg) h h'
 
 /-! Non-vacuity on a concrete program: nested prefixes `v` / `verbose`, abbreviation `--verb`,
